@@ -168,8 +168,13 @@ pub uninterp spec fn vrf_label_of<TC: Configuration, V>(vrf: &V, k: LabelInput) 
 // R-UFCS target: the batch call of the VRF trait (its body is verified in unit vrf_labels: every returned pair carries the label of ITS tuple)
 #[verifier::external_body]
 pub async fn vx_vrf_get_node_labels<TC: Configuration, V: VRFKeyStorage>(vrf: &V, labels: &[LabelInput]) -> (r: Result<Vec<(LabelInput, NodeLabel)>, VrfError>)
-    ensures r is Ok ==> forall|i: int| 0 <= i < r->Ok_0@.len() ==> (#[trigger] r->Ok_0@[i]).1 == vrf_label_of::<TC, V>(vrf, r->Ok_0@[i].0)
+    ensures r is Ok ==> forall|i: int| 0 <= i < r->Ok_0@.len() ==> (#[trigger] r->Ok_0@[i]).1 == vrf_label_of::<TC, V>(vrf, r->Ok_0@[i].0),
+            // ... and a pair for EVERY tuple asked (unit vrf_labels: get_node_labels#E_complete)
+            r is Ok ==> forall|j: int| 0 <= j < labels@.len() ==> has_key_of(r->Ok_0@, #[trigger] labels@[j]),
 { unimplemented!() }
+pub open spec fn has_key_of(pairs: Seq<(LabelInput, NodeLabel)>, t: LabelInput) -> bool {
+    exists|k: int| 0 <= k < pairs.len() && (#[trigger] pairs[k]).0 == t
+}
 // R-COLLECT target: Vec<(K, V)>::into_iter().collect::<HashMap<K, V>>()
 #[verifier::external_body]
 pub fn vx_pairs_into_map<K: core::hash::Hash + Eq, W>(v: Vec<(K, W)>) -> (r: HashMap<K, W>)
